@@ -1409,10 +1409,10 @@ func (k *Kad) EachPeerRev(f model.EachPeerFunc, filter topology.Filter) error {
 func (k *Kad) Reachable(addr boson.Address, status p2p.ReachabilityStatus) {
 	k.collector.Record(addr, im.PeerReachability(status))
 	k.logger.Tracef("kademlia: reachability of peer %s is %s", addr.String(), status.String())
+	k.depthMu.Lock()
+	k.depth = recalcDepth(k.connectedPeers, k.radius, k.peerFilter)
+	k.depthMu.Unlock()
 	if status == p2p.ReachabilityStatusPublic {
-		k.depthMu.Lock()
-		k.depth = recalcDepth(k.connectedPeers, k.radius, k.peerFilter)
-		k.depthMu.Unlock()
 		k.notifyManageLoop()
 	}
 }
